@@ -260,6 +260,34 @@ def render(idx, s):
     return trait_src + mk_ans + f"    pub fn run() -> Result<(), String> {{{body}    }}\n"
 
 
+def render_static_first(idx, api):
+    """Two same-signature methods behind a receiver-less provided function (which the macro skips
+    but which still occupies a position in the flattened api list)."""
+    attr = {"module": "api=Mk", "flat": "api=[Fs, Fk, Gk]"}[api]
+    fk = {"module": "Mk::f", "flat": "Fk"}[api]
+    return f"""    #[unimock({attr})]
+    pub trait Tr {{
+        fn kind() -> u32 where Self: Sized {{ 4 }}
+        fn f(&self, a0: u8) -> u64;
+        fn g(&self, a0: u8) -> u64;
+    }}
+    pub fn run() -> Result<(), String> {{
+        // only the MockFn of `f` is configured: `f` answers, `g` has no implementation
+        let u = Unimock::new({fk}.each_call(matching!(_)).answers(&|_, a0| 1000 + a0 as u64)).no_verify_in_drop();
+        match vh::obs::catch(|| <Unimock as Tr>::f(&u, 7)) {{
+            Ok(1007) => {{}}
+            other => return Err(format!("the MockFn of `f` does not serve `f`: {{other:?}}")),
+        }}
+        match vh::obs::catch(|| <Unimock as Tr>::g(&u, 7)) {{
+            Err(msg) if msg == "Tr::g(7): No mock implementation found." => {{}}
+            other => return Err(format!("`g` was served by the MockFn of `f`: {{other:?}}")),
+        }}
+        if <Unimock as Tr>::kind() != 4 {{ return Err("the provided static function changed".into()); }}
+        Ok(())
+    }}
+"""
+
+
 def param_shapes(max_arity, max_dev):
     """All parameter lists of arity <= 2 over all kinds; beyond that, every list with at most
     max_dev parameters deviating from the default kind u8 (all positions)."""
@@ -330,6 +358,9 @@ def run(pid, tier, replay, start):
     all_shapes = shapes(tier)
     # stable numbering: index in the thorough enumeration would change between tiers; use per-run idx
     insts = [Instance(i, shape_key(s), render(i, s), s) for i, s in enumerate(all_shapes)]
+    for api in ("module", "flat"):
+        insts.append(Instance(len(insts), f"special/static-fn-first/{api}", render_static_first(len(insts), api),
+                              dict(recv="ref", params=["u8"], ret="owned", asy="sync", gen="none", api=api)))
     if replay:
         import json
         key = json.load(open(replay))["case"]["shape"]
